@@ -67,6 +67,12 @@ func c06DBs() [][]Cmd {
 	}
 	all := append(append([]Cmd{}, pool...), ex...)
 	dbs = append(dbs, all, uForty())
+	// 70 entries that all match the alphabet's file words: more matches than any fixed re-rank window
+	var seventy []Cmd
+	for i := 0; i < 70; i++ {
+		seventy = append(seventy, Cmd{Command: fmt.Sprintf("cmd%02d files", i), Description: fmt.Sprintf("find files in a folder or directory, variant %d", i), Keywords: []string{"files", "folder", fmt.Sprintf("v%d", i%5)}})
+	}
+	dbs = append(dbs, seventy)
 	return dbs
 }
 
@@ -354,7 +360,7 @@ func c06Replay(c *lib.Ctx, raw json.RawMessage) []lib.Violation {
 func init() {
 	lib.Register(&lib.Check{
 		ID: "C06", Level: "model_checking",
-		Rule:      "every query of <=4 (quick) / <=5 (thorough) words over a 17-word NLP-aware alphabet (actions, targets, synonym carriers, stop word, context words ip/manage/windows, the 'without opening' phrase, upper case, punctuation) + 6..13-word families (13 rotations of distinct known words, a 3-word cycle, unknown words with one known word at every position) + 15 specials; each analysed twice and again under reversed / rotated iteration order of every map the analysis ranges over, one deviating point at a time (ProcessQuery / GetEnhancedKeywords structure) and searched on 12 databases x all-platforms on/off with NLP off and on at Limit>=N: NLP-off result set must be a subset of NLP-on (<=10 content words), entries matching one of the first four content words must be present (longer). evaluations = searches + analyses; non-trivial = search pairs with a non-empty NLP-off answer",
+		Rule:      "every query of <=4 (quick) / <=5 (thorough) words over a 17-word NLP-aware alphabet (actions, targets, synonym carriers, stop word, context words ip/manage/windows, the 'without opening' phrase, upper case, punctuation) + 6..13-word families (13 rotations of distinct known words, a 3-word cycle, unknown words with one known word at every position) + 15 specials; each analysed twice and again under reversed / rotated iteration order of every map the analysis ranges over, one deviating point at a time (ProcessQuery / GetEnhancedKeywords structure) and searched on 13 databases (the last: 70 entries that all match) x all-platforms on/off with NLP off and on at Limit>=N: NLP-off result set must be a subset of NLP-on (<=10 content words), entries matching one of the first four content words must be present (longer). evaluations = searches + analyses; non-trivial = search pairs with a non-empty NLP-off answer",
 		Assume:    []string{"host pinned to linux, map order pinned", "first four content words = the first four tokens of the query after stop-word removal"},
 		QuickSecs: 150, ThorSecs: 1200,
 		Run: c06Run, Replay: c06Replay,
